@@ -28,17 +28,29 @@ I64_MAX = 2 ** 63 - 1
 # Genuine defects of the real code on inputs of these families (reported; excluded so that the stand-ins pass on HEAD).
 # Exemplar constraints are checked ONLY by the static type checker; the VM checks ranges and alternations only.  A value
 # whose static type is unknown or a union therefore escapes an exemplar: the binding builds although the value does not
-# conform (property clause "builds if and only if the bound value conforms").  Each entry: value form -> (example, observed).
+# conform (property clause "builds if and only if the bound value conforms").  Each entry: id = the value form (see loose_forms), a failing input, what is observed, the clause it breaks.
 # The exclusion is exactly: value written in one of these forms AND the constraint is a pure exemplar (inline, named or
 # let-bound; no range / alternation, which the VM checks) AND the actual value does not conform AND some static candidate
 # of the form would conform (for `identity` / `emptyconcat` / `modparam_emptytuple` the static type is unknown, so any exemplar).
-KNOWN = {
-    'identity': ('let idf = func(a) => a;\nlet x :: "s" = idf(1);', 'builds (the result type of a function returning its unconstrained parameter is unknown)'),
-    'heterolist': ('let hl = [1, "s"];\nlet x :: "s" = hl.0;', 'builds (element type of a mixed list is the union int|str)'),
-    'heteroselect': ('let x :: "s" = select (true, 1) => {true = 1, false = "s"};', 'builds (select type is the union of its branches)'),
-    'emptyconcat': ('let x :: ["s"] = [] + [1];', 'builds (`[] + list` has an unknown element type)'),
-    'modparam_emptytuple': ('let mm = module {p = {}} => (r) { let r = mod.p; };\nlet x :: 0 = mm{};', 'builds (a module parameter whose default is `{}` has an unknown type)'),
-}
+CLAUSE = 'a let binding that carries a constraint builds if and only if the bound value conforms to it'
+KNOWN = [
+    dict(id='identity', input='let idf = func(a) => a;\nlet x :: "s" = idf(1);',
+         observed='builds (the result type of a function returning its unconstrained parameter is unknown; exemplars are checked statically only)', clause=CLAUSE),
+    dict(id='heterolist', input='let hl = [1, "s"];\nlet x :: "s" = hl.0;',
+         observed='builds (the element type of a mixed list is the union int|str)', clause=CLAUSE),
+    dict(id='heteroselect', input='let x :: "s" = select (true, 1) => {true = 1, false = "s"};',
+         observed='builds (the type of a select is the union of its branches)', clause=CLAUSE),
+    dict(id='emptyconcat', input='let x :: ["s"] = [] + [1];',
+         observed='builds (`[] + list` has an unknown element type)', clause=CLAUSE),
+    dict(id='modparam_emptytuple', input='let mm = module {p = {}} => (r) { let r = mod.p; };\nlet x :: 0 = mm{};',
+         observed='builds (a module parameter whose default is `{}` has an unknown type)', clause=CLAUSE),
+    # not an exclusion of the families below (only the documented recursive forms are run, where every arm is a shape); recorded as a finding
+    dict(id='selfref_shape_only', input='constraint a = in 1..3 | [a];\nlet x :: a = 4;',
+         observed='builds; so do `let x :: a = [2, [4]];` and `constraint a = a | 1; let x :: a = 2;` (a constraint that refers to itself is checked by shape only: '
+                  'ranges and literal alternatives are not enforced)',
+         clause='a range admits numbers between the inclusive bounds, an alternation admits a value equal to one of its alternatives or inside one of its ranges'),
+]
+KNOWN_FORMS = set(k['id'] for k in KNOWN) - {'selfref_shape_only'}
 
 
 # ------------------------------------------------------------------ values
@@ -209,8 +221,8 @@ def loose_forms(v):
     return f
 
 
-def known_defect(c, v, cands):
-    return static_only(c) and not admits(c, v) and (cands is None or any(admits(c, w) for w in cands))
+def known_defect(form, c, v, cands):
+    return form in KNOWN_FORMS and static_only(c) and not admits(c, v) and (cands is None or any(admits(c, w) for w in cands))
 
 
 class Batch:
@@ -226,7 +238,7 @@ class Batch:
             if form not in lf:
                 return
             vpre, expr, cands = lf[form]
-            if known_defect(c, v, cands):
+            if known_defect(form, c, v, cands):
                 self.skipped += 1
                 return
         pre = []
